@@ -169,6 +169,7 @@ type domState struct {
 	lastTempLen int
 	lastTempDel bool
 	inContent   map[int]bool
+	idVecs      map[int][][]float32 // every vector ever upserted under an id (ghost entries of dedup-off sessions)
 }
 
 type runner struct {
@@ -209,9 +210,6 @@ func (r *runner) cause(d *domState, kind string) string {
 	if kind == "lost" && d.overBatch {
 		return "staged-over-100"
 	}
-	if kind == "lost" && d.restaged {
-		return "restaged-after-optimize"
-	}
 	if (kind == "resurrected" || kind == "panic-optimize" || kind == "wrong-vector") && d.stagedDel {
 		return "staged-deleted"
 	}
@@ -219,7 +217,21 @@ func (r *runner) cause(d *domState, kind string) string {
 }
 
 func (r *runner) fail(d *domState, kind, what string) {
+	if kind == "query-score" && d.mode == ai.DynamicWithVectorCountTracking {
+		kind = "wrong-vector" // a score computed from a stored vector that the in-place centroid average overwrote
+	}
+	if (kind == "optimize-error" || kind == "commit-error") && d.mode != ai.DynamicWithVectorCountTracking {
+		for _, o := range r.doms { // the transaction is shared: a NaN centroid of a count-tracking domain fails it for all
+			if o.mode == ai.DynamicWithVectorCountTracking {
+				d = o
+			}
+		}
+	}
 	sig := kind + "/" + r.cause(d, kind)
+	if d.restaged {
+		// staged and indexed entries coexist: every read path sees only one of the two sets (one finding, many symptoms)
+		sig = "inconsistent/restaged-after-optimize"
+	}
 	r.res.Fail(sig, fmt.Sprintf("[%s dom %s] %s", r.input.Script.Name, d.name, what), r.input)
 	r.res.Count("oracle_fail." + sig)
 }
@@ -681,6 +693,10 @@ func (r *runner) execScript(sc script) {
 					d.inContent[it.ID] = true
 					d.ref[it.ID] = refItem{it.Vec, it.P}
 					d.noteVec(it.Vec)
+					if d.idVecs == nil {
+						d.idVecs = map[int][][]float32{}
+					}
+					d.idVecs[it.ID] = append(d.idVecs[it.ID], it.Vec)
 					a := "0%Z 0%Z"
 					if !buf {
 						k, ok := r.readKey(idx, it.ID)
@@ -806,6 +822,30 @@ func (r *runner) execScript(sc script) {
 			}
 			for _, e := range dp.vEnt {
 				mig = append(mig, fmt.Sprintf("MG %d %s %s %s", idNum(e.key.ItemID), bitsList(e.vec), hx.CoqZ(int64(e.key.CentroidID)), dcode(e.key.DistanceToCentroid)))
+			}
+			// an old entry that is missing from the new index although entries are migrated unconditionally (dedup off)
+			// was refused by Add on a key collision with another entry of the same id: it had that entry's assignment
+			present := map[string]bool{}
+			first := map[int]vdump{}
+			for _, e := range dp.vEnt {
+				id := idNum(e.key.ItemID)
+				present[fmt.Sprintf("%d/%s", id, vecKey(e.vec))] = true
+				if _, ok := first[id]; !ok {
+					first[id] = e
+				}
+			}
+			for _, id := range ids {
+				f, ok := first[id]
+				if !ok {
+					continue
+				}
+				for _, v := range d.idVecs[id] {
+					kk := fmt.Sprintf("%d/%s", id, vecKey(v))
+					if !present[kk] {
+						present[kk] = true
+						mig = append(mig, fmt.Sprintf("MG %d %s %s %s", id, bitsList(v), hx.CoqZ(int64(f.key.CentroidID)), dcode(f.key.DistanceToCentroid)))
+					}
+				}
 			}
 			d.events = append(d.events, fmt.Sprintf("OPT %s %s %s %s", hx.CoqBool(buf), hx.CoqBool(dedup), hx.CoqList(cs), hx.CoqList(mig)))
 		} else {
@@ -1086,7 +1126,7 @@ func runC33(cfg *hx.RunCfg) (*hx.Result, error) {
 	if n == 0 {
 		n = 25
 		if cfg.Tier == "thorough" {
-			n = 1200
+			n = 600
 		}
 	}
 	for _, sc := range corpus() {
